@@ -713,6 +713,10 @@ def check_encode_verify(ctx, f, rule="R-REG"):
             # a narrowing cast of a value already below 256 is the value itself
             pushes = [re.sub(r"^\(len as u8\)$", "len", x) if hi <= 255 else x for x in pushes]
             wantn = [re.sub(r"^\(len as u8\)$", "len", x) if hi <= 255 else x for x in want]
+            # … and so is the narrowing of `len >> 8` while len fits 16 bits
+            if hi <= 0xFFFF:
+                pushes = [re.sub(r"^\(Shr\(len, 8\) as u8\)$", "Shr(len, 8)", x) for x in pushes]
+                wantn = [re.sub(r"^\(Shr\(len, 8\) as u8\)$", "Shr(len, 8)", x) for x in wantn]
             ext = [e for e in p.effects if e[0] == "Vec::extend_from_slice"]
             good = p.outcome[0] == "return" and pushes == wantn and len(ext) == 1 and re.match(r"^(\w+::\w+\()?self\.0\)?$", ext[0][1][1]) is not None \
                 and p.effects.index(ext[0]) > max([i for i, e in enumerate(p.effects) if e[0] == "Vec::push"] or [-1])
